@@ -171,7 +171,7 @@ def cmpView {α : Type} [DecidableEq α] [Repr α] (prop what : String) (got : O
   match got with
   | none => [s!"{prop} {what}: the request bytes do not decode as a netlink attribute tree"]
   | some g => if g = want then [] else
-      [s!"{prop} {what}: the rule read back from the netlink request differs from the IE's content: got {reprStr g} want {reprStr want}"]
+      [s!"{prop} {what}: the rule read back from the netlink request differs from the IE's content: got {(reprStr g).replace "\n" " "} want {(reprStr want).replace "\n" " "}"]
 
 def checkRule {σ α : Type} [DecidableEq α] [Repr α] (prop what : String) (impl : String) (cmd : Nat)
     (spec : Option σ) (wf : σ → Bool) (read : List Attr → α) (expect : σ → α) : List String :=
